@@ -228,7 +228,12 @@ fn run_indices(rc_cfg: &RunCfg, indices: &[u64], stats: &mut Stats, deadline: Op
         if rc_cfg.trace_cases {
             println!("CASE {}", i);
         }
-        let case = gen_case(ctx, rs);
+        // engine B: cases are generated natively beforehand (generation under Miri costs more than
+        // the run itself) and read back here; same seed, same case
+        let case = match a.kv.get("batch-dir") {
+            Some(dir) => load_replay(&format!("{}/{}.json", dir, i)).case,
+            None => gen_case(ctx, rs),
+        };
         stats.inc("runs");
         if stats.samples.len() < 3 && (i / rc_cfg.stride) % 7 == 0 {
             let mut d = describe(&case);
@@ -507,6 +512,40 @@ fn cmd_mkreplay(a: &Args) -> i32 {
     0
 }
 
+/// Generate the cases of a range of run indices into `<dir>/<index>.json` without executing them.
+fn cmd_mkbatch(a: &Args) -> i32 {
+    let ctx = Ctx {
+        prop: a.get("prop", "C13"),
+        engine: a.get("engine", "native"),
+        profile: a.get("profile", "release"),
+        thorough: a.get("tier", "quick") == "thorough",
+    };
+    let seed = a.u64("seed", 1);
+    let dir = a.get("dir", "/verif/work/batch");
+    std::fs::create_dir_all(&dir).ok();
+    for i in a.u64("from", 0)..a.u64("to", 0) {
+        let rs = rng::run_seed(seed, &ctx.prop, i);
+        let case = gen_case(&ctx, rs);
+        let rf = ReplayFile {
+            property: ctx.prop.clone(),
+            engine: ctx.engine.clone(),
+            profile: ctx.profile.clone(),
+            verif_seed: seed,
+            run_index: i,
+            run_seed: rs,
+            class: String::new(),
+            detail: String::new(),
+            minimised: false,
+            original_ops: case_size(&case),
+            minimised_ops: case_size(&case),
+            engine_flags: String::new(),
+            case,
+        };
+        std::fs::write(format!("{}/{}.json", dir, i), serde_json::to_vec(&rf).unwrap()).expect("write batch case");
+    }
+    0
+}
+
 /// Print the shrink candidates of a replay file's case as replay files into a
 /// directory (external, monitor-driven minimisation).
 fn cmd_candidates(a: &Args) -> i32 {
@@ -598,6 +637,7 @@ fn main() {
         Some("replay") => cmd_replay(&a),
         Some("exec-case") => cmd_exec_case(&a),
         Some("mkreplay") => cmd_mkreplay(&a),
+        Some("mkbatch") => cmd_mkbatch(&a),
         Some("candidates") => cmd_candidates(&a),
         Some("selftest") => cmd_selftest(),
         _ => {
